@@ -123,6 +123,8 @@
 ;@ghost closedB (Seq Any)
 ;@ghost bmAdds (Seq Any)
 ;@ghost bmRemoves (Seq Any)
+;@ghost lnAdds (Seq Any)
+;@ghost lnRemoves (Seq Any)
 
 ;@chunk netio msgBytesOf
 ; bytes of a message: used only inside a single send, during which the message is not modified (frame-checked)
